@@ -237,14 +237,16 @@ Section Steps.
 
   Lemma getev_setev_ne s e0 e c : e <> e0 -> getev (setev s e0 c) e = getev s e.
   Proof. intros H. unfold getev, setev; cbn. by rewrite list_lookup_insert_ne. Qed.
+  Lemma elem_of_rev {A} (x : A) l : x ∈ l -> x ∈ rev l.
+  Proof. rewrite !elem_of_list_In. apply in_rev. Qed.
   Lemma in_wake_frames w ws : w ∈ ws -> FWake w ∈ wake_frames ws.
   Proof. intros H. unfold wake_frames. by apply elem_of_list_fmap_1. Qed.
 
   (* an external event fires: every registered waker is taken and called *)
   Lemma ws_fire s a e0 rest : Inv_own s -> Inv_wake s -> stacks s !! a = Some (FFire e0 :: rest) ->
-    Inv_wake (setstack (setev s e0 {| fired := true; wakers := [] |}) a (wake_frames (getev s e0).(wakers) ++ rest)).
+    Inv_wake (setstack (setev s e0 {| fired := true; wakers := [] |}) a (wake_frames (rev (getev s e0).(wakers)) ++ rest)).
   Proof.
-    intros HO [IF IQ] Hst. set (ws := wakers (getev s e0)). set (s0 := setev s e0 _). set (s' := setstack _ _ _).
+    intros HO [IF IQ] Hst. set (ws := rev (wakers (getev s e0))). set (s0 := setev s e0 _). set (s' := setstack _ _ _).
     assert (Hs : stacks s' = <[a := wake_frames ws ++ rest]> (stacks s)) by (subst s' s0; solve_stacks).
     assert (Hnw : forall w, np (is_wake w) s <= np (is_wake w) s').
     { intros w. eapply np_mono; [exact Hst|exact Hs|]. rewrite cntf_app. cbn. lia. }
@@ -253,7 +255,7 @@ Section Steps.
     assert (Hu : forall e w, unfreg s e w = true -> unfreg s' e w = true \/ posb (np (is_wake w) s') = true).
     { intros e w Hu. destruct (decide (e = e0)) as [->|Hne].
       - right. unfold unfreg in Hu. apply andb_true_iff in Hu as [_ Hin]. apply bool_decide_eq_true in Hin.
-        eapply (np_pos_wake s' a). eapply fsat_new; [exact Hst|exact Hs|]. apply elem_of_app. left. by apply in_wake_frames.
+        eapply (np_pos_wake s' a). eapply fsat_new; [exact Hst|exact Hs|]. apply elem_of_app. left. apply in_wake_frames. subst ws. by apply elem_of_rev.
       - left. unfold unfreg in *. change (getev s' e) with (getev s0 e). subst s0. by rewrite getev_setev_ne. }
     assert (Hnf : forall fr, fr ∈ wake_frames ws ++ rest -> fr ∈ rest \/ frame_ok s' a fr = true).
     { intros fr [Hin|Hin]%elem_of_app; [right|by left]. unfold wake_frames in Hin. by apply elem_of_list_fmap in Hin as (w & -> & _). }
@@ -270,7 +272,7 @@ Section Steps.
       intros [(Hf & w & Hin & He)|[(c & w & Hf & He)|(c & d2 & w2 & Hf & He & Hg)]].
       + destruct (decide (e = e0)) as [->|Hne].
         * apply cover_iff. right; left. exists a, w. split; [|by rewrite Heq].
-          eapply fsat_new; [exact Hst|exact Hs|]. apply elem_of_app. left. by apply in_wake_frames.
+          eapply fsat_new; [exact Hst|exact Hs|]. apply elem_of_app. left. apply in_wake_frames. subst ws. by apply elem_of_rev.
         * apply cover_iff. left. change (getev s' e) with (getev s0 e). subst s0. rewrite getev_setev_ne by done.
           split; [done|]. exists w. split; [done|by rewrite Heq].
       + apply cover_iff. right; left. exists c, w. split; [|by rewrite Heq].
